@@ -94,4 +94,43 @@ def initFit (sh : Shapes) : List Bool → List Shapes × Bool
 def updateFallback (oldHyp newHyp : List Rat) (fails : Bool) : List Rat × Int :=
   if fails then (oldHyp, -2) else (newHyp, 0)
 
+/-! ### the surrogate's training set over a whole run
+
+  `init_and_train_gp` (whole log) -> per search round / poll step `local_gp_fitting` (the neighbourhood of the incumbent, refit through
+  `_robust_gp_fit_`, which retries on a COPY: the rows a retry drops are dropped from the copy only) -> after each evaluation
+  `add_and_update_gp` (one appended row).  The log handed to an event is the evaluation log at that moment (ORACLE here: the logger is
+  modelled in Logger.lean), so are the distances, the fit outcomes and the rows a retry drops. -/
+
+inductive Ev where
+  | initial (log : List Obs) (fails : List Bool)
+  | select (log : List Obs) (dist : List Rat) (r2 : Rat) (nMin nMax buffer : Int) (nTry removeAfter : Nat) (fails : List Bool) (drops : List Nat)
+  | add (x : Pt) (y : Rat) (sd : Option Rat)
+deriving Repr
+
+/-- the surrogate as far as C15/C16 see it: the training set it is conditioned on, whether its last hyper-parameter fit succeeded, and
+    the shapes of the arrays every fit attempt of the run was given -/
+structure Sur where
+  train : List Train
+  fitOK : Bool
+  attempts : List Shapes
+deriving Repr
+
+def Sur.init : Sur := { train := [], fitOK := false, attempts := [] }
+
+def shapesOf (t : List Train) : Shapes :=
+  { nX := t.length, nY := t.length, nS2 := if t.all (fun r => r.s2.isSome) && !t.isEmpty then some t.length else none }
+
+def sstep (s : Sur) : Ev → Sur
+  | .initial log fails =>
+      let t := fevals log
+      let (att, ok) := initFit (shapesOf t) fails
+      { train := t, fitOK := ok, attempts := s.attempts ++ att }
+  | .select log dist r2 nMin nMax buffer nTry removeAfter fails drops =>
+      let t := neighbors log dist r2 nMin nMax buffer
+      let (att, ok) := robustFit nTry removeAfter (shapesOf t) fails drops 0
+      { train := t, fitOK := if fails.isEmpty then s.fitOK else ok, attempts := s.attempts ++ att }      -- the retries worked on a copy: `t` is kept whole; no refit without attempts
+  | .add x y sd => { s with train := addPoint s.train x y sd }
+
+def srun (evs : List Ev) : Sur := evs.foldl sstep Sur.init
+
 end Bads.GP
